@@ -34,7 +34,19 @@ def gen_server_forward(repo):
     sm = re.search(r'let\s+session\s*=\s*async\s+move\b', h)
     if not sm:
         raise ParseError('tcp/server.rs handle: no `let session = async move { .. }` block')
-    _, end = rp.block_after(h, sm.end())
+    sess_block, end = rp.block_after(h, sm.end())
+    # the close notice of the session task: the LAST thing the spawned block does with notify_close
+    flat = ''.join(sess_block.split())
+    if flat.count('notify_close.') != 1:
+        raise ParseError('tcp/server.rs handle: expected exactly one use of notify_close in the session block')
+    if 'let_=notify_close.send(SessionClose(id)).await;' in flat:
+        notice = 'NoticeSendAwait'
+    elif 'let_=notify_close.try_send(SessionClose(id));' in flat:
+        notice = 'NoticeTrySend'
+    else:
+        raise ParseError('tcp/server.rs handle: close notice statement not understood')
+    if flat.index('notify_close.') < flat.index('run_session('):
+        raise ParseError('tcp/server.rs handle: the close notice is not sent after run_session')
     outside = h[:sm.start()] + h[end:]
     if not re.search(r'tokio::spawn\s*\(\s*session\s*\)', outside):
         raise ParseError('tcp/server.rs handle: the session is not spawned')
@@ -52,4 +64,8 @@ def gen_server_forward(repo):
     out += f'Definition apply_command_awaits : nat := {ac_awaits}.\nDefinition handle_awaits : nat := {h_awaits}.\n'
     out += f'(* capacity of the command queue of a session (handle: mpsc::channel(n), its sender goes into the tracker) *)\n'
     out += f'Definition session_command_queue : nat := {int(cm.group(1))}.\n'
+    out += '(* how an ending session tells the server task (handle, end of the spawned block): send(SessionClose(id)).await is\n'
+    out += '   never lost; try_send is dropped when the server\'s queue is full *)\n'
+    out += 'Inductive close_notice := NoticeSendAwait | NoticeTrySend.\n'
+    out += f'Definition session_close_notice : close_notice := {notice}.\n'
     return out
